@@ -198,16 +198,19 @@ Proof. induction w1 as [|x w1 IH]; intros p w2; [reflexivity|]. cbn. apply IH. Q
 
 Definition transports (R : mst -> mst -> Prop) (s s' : mst) : Prop :=
   exists wc, st_rest s = wc ++ st_rest s' /\ st_p s' = last_of (st_p s) wc /\
+    (st_i s' = st_i s + lenN wc /\ st_c s' = st_c s) /\
     forall i2 c2 z2, R (mkSt i2 (st_p s) (wc ++ z2) c2) (mkSt (i2 + lenN wc) (last_of (st_p s) wc) z2 c2).
 
 Lemma iter_transport (R : mst -> mst -> Prop) : (forall s s', R s s' -> transports R s s') ->
   forall n s s', iterR R n s s' -> transports (iterR R n) s s'.
 Proof.
   intros HR. induction n as [|n IH]; intros s s' H; cbn [iterR] in H.
-  - subst s'. exists []. split; [reflexivity|]. split; [reflexivity|]. intros i2 c2 z2. cbn. rewrite N.add_0_r. reflexivity.
-  - destruct H as (s1 & H1 & H2). apply HR in H1 as (w1 & E1 & P1 & T1). apply IH in H2 as (w2 & E2 & P2 & T2).
+  - subst s'. exists []. split; [reflexivity|]. split; [reflexivity|]. split; [cbn; split; [lia|reflexivity]|].
+    intros i2 c2 z2. cbn. rewrite N.add_0_r. reflexivity.
+  - destruct H as (s1 & H1 & H2). apply HR in H1 as (w1 & E1 & P1 & [I1 C1] & T1). apply IH in H2 as (w2 & E2 & P2 & [I2 C2] & T2).
     exists (w1 ++ w2). split; [rewrite E1, E2, app_assoc; reflexivity|].
-    split; [rewrite P2, P1, last_of_app; reflexivity|]. intros i2 c2 z2. cbn [iterR].
+    split; [rewrite P2, P1, last_of_app; reflexivity|].
+    split; [split; [rewrite I2, I1, lenN_app; lia|congruence]|]. intros i2 c2 z2. cbn [iterR].
     exists (mkSt (i2 + lenN w1) (last_of (st_p s) w1) (w2 ++ z2) c2). split.
     + rewrite <- app_assoc. apply T1.
     + specialize (T2 (i2 + lenN w1) c2 z2). rewrite P1 in T2. rewrite last_of_app, lenN_app, N.add_assoc. exact T2.
@@ -216,23 +219,25 @@ Qed.
 Lemma pure_transport : forall r, pure r = true -> forall s s', mx r s s' -> transports (mx r) s s'.
 Proof.
   induction r; intros Hp s s' H; cbn [pure] in Hp; try discriminate; cbn [MatchExact.mx] in H.
-  - subst s'. exists []. split; [reflexivity|]. split; [reflexivity|]. intros i2 c2 z2. cbn. rewrite N.add_0_r. reflexivity.
-  - destruct H as (x & t & Hr & Hm & ->). exists [x]. cbn. split; [exact Hr|]. split; [reflexivity|].
+  - subst s'. exists []. split; [reflexivity|]. split; [reflexivity|]. split; [cbn; split; [lia|reflexivity]|].
+    intros i2 c2 z2. cbn. rewrite N.add_0_r. reflexivity.
+  - destruct H as (x & t & Hr & Hm & ->). exists [x]. cbn. split; [exact Hr|]. split; [reflexivity|]. split; [split; reflexivity|].
     intros i2 c2 z2. exists x, z2. cbn. auto.
-  - destruct H as (x & t & Hr & Hm & ->). exists [x]. cbn. split; [exact Hr|]. split; [reflexivity|].
+  - destruct H as (x & t & Hr & Hm & ->). exists [x]. cbn. split; [exact Hr|]. split; [reflexivity|]. split; [split; reflexivity|].
     intros i2 c2 z2. exists x, z2. cbn. auto.
   - apply andb_prop in Hp as [Hp1 Hp2]. destruct H as (s2 & H1 & H2).
-    apply (IHr1 Hp1) in H1 as (w1 & E1 & P1 & T1). apply (IHr2 Hp2) in H2 as (w2 & E2 & P2 & T2).
+    apply (IHr1 Hp1) in H1 as (w1 & E1 & P1 & [I1 C1] & T1). apply (IHr2 Hp2) in H2 as (w2 & E2 & P2 & [I2 C2] & T2).
     exists (w1 ++ w2). split; [rewrite E1, E2, app_assoc; reflexivity|].
-    split; [rewrite P2, P1, last_of_app; reflexivity|]. intros i2 c2 z2. cbn [MatchExact.mx].
+    split; [rewrite P2, P1, last_of_app; reflexivity|].
+    split; [split; [rewrite I2, I1, lenN_app; lia|congruence]|]. intros i2 c2 z2. cbn [MatchExact.mx].
     exists (mkSt (i2 + lenN w1) (last_of (st_p s) w1) (w2 ++ z2) c2). split.
     + rewrite <- app_assoc. apply T1.
     + specialize (T2 (i2 + lenN w1) c2 z2). rewrite P1 in T2. rewrite last_of_app, lenN_app, N.add_assoc. exact T2.
   - apply andb_prop in Hp as [Hp1 Hp2]. destruct H as [H|H].
-    + apply (IHr1 Hp1) in H as (w & E & P & T). exists w. split; [exact E|]. split; [exact P|]. intros. left. apply T.
-    + apply (IHr2 Hp2) in H as (w & E & P & T). exists w. split; [exact E|]. split; [exact P|]. intros. right. apply T.
-  - destruct H as (n & Hi & Hmn & Hmx). apply (iter_transport _ (IHr Hp)) in Hi as (w & E & P & T).
-    exists w. split; [exact E|]. split; [exact P|]. intros i2 c2 z2. cbn [MatchExact.mx]. exists n. split; [apply T|]. split; assumption.
+    + apply (IHr1 Hp1) in H as (w & E & P & IC & T). exists w. split; [exact E|]. split; [exact P|]. split; [exact IC|]. intros. left. apply T.
+    + apply (IHr2 Hp2) in H as (w & E & P & IC & T). exists w. split; [exact E|]. split; [exact P|]. split; [exact IC|]. intros. right. apply T.
+  - destruct H as (n & Hi & Hmn & Hmx). apply (iter_transport _ (IHr Hp)) in Hi as (w & E & P & IC & T).
+    exists w. split; [exact E|]. split; [exact P|]. split; [exact IC|]. intros i2 c2 z2. cbn [MatchExact.mx]. exists n. split; [apply T|]. split; assumption.
 Qed.
 
 (* ---- the macro-definition opening pattern and the pattern that re-reads the name from it ---- *)
@@ -275,7 +280,7 @@ Proof.
     apply lit_match in Hz. subst z. cbn [st_rest s0] in Hrz. unfold consumed in Cwc. cbn [st_rest s0] in Cwc.
     rewrite Hw in Hg0. subst wc. rewrite Hrz in Cwc. cbn in Cwc. inversion Cwc. congruence. }
   subst s2. subst s0. cbn [st_rest st_p st_i st_c] in *.
-  apply (pure_transport _ HpA) in HA as (wa & Ea & Pa & Ta). apply (pure_transport _ HpB) in HB as (wb & Eb & Pb & Tb).
+  apply (pure_transport _ HpA) in HA as (wa & Ea & Pa & _ & Ta). apply (pure_transport _ HpB) in HB as (wb & Eb & Pb & _ & Tb).
   destruct (proj1 Matches_consumed_ex _ _ _ (mx_Matches _ _ _ Hrest)) as (wr & Cr). unfold consumed in Cr, Cwc.
   cbn [st_rest st_p] in *.
   assert (Ewc : wc = x :: wa ++ wb ++ y :: wr).
